@@ -4,7 +4,8 @@ CONSTANTS
   NegMag = {1, 2, 4}
   Gaps = {0, 1, 2, 3, 4}
   MaxLen = 14
+  MaxResets = 0
 INVARIANTS Done TypeOK RunIsRef ReadIsCurrent PeakToTrough Recovery OnePerPeak NoneIffMonotone MaxIsLargest
-PROPERTIES ReadingIsPure
+PROPERTIES ReadingIsPure PersistIsStutter
 POSTCONDITION Post
 CHECK_DEADLOCK FALSE
